@@ -1,7 +1,7 @@
-"""Determinism self-test: the same seeds executed twice, at two worker counts, must give identical
+"""Determinism self-test: the same jobs executed twice, at two worker counts, must give identical
 status, violation class and event-log hash (the gate every claimed violation also has to pass)."""
+import itertools
 import os
-import time
 
 from . import common as C
 from .checker import Check, result_class
@@ -16,19 +16,23 @@ def determinism(args=None):
     total = 0
     for prop in props:
         spec = PROPS[prop]
-        cfg = spec["configs"]["quick"][0]
-        exe = C.build_engine(spec["engine"], cfg)
         chk = Check(spec, prop, "quick", 4242)
-        table = []
-        for nw in (3, 14):
-            jobs = [chk.job_for(i, cfg) for i in range(n)]
-            rs = run_parallel(exe, iter(jobs), nw)
-            table.append({r.cmd[1]["seed"]: (r.status, result_class(r), r.kv.get("hash")) for r in rs})
-        diffs = [s for s in table[0] if table[0][s] != table[1].get(s)]
-        total += len(table[0])
-        bad += len(diffs)
-        C.log("selftest determinism %s: %d seeds x 2 worker counts, %d differences" % (prop, len(table[0]), len(diffs)))
-        for s in diffs[:5]:
-            C.log("   seed", s, table[0][s], table[1].get(s))
-    C.log("selftest determinism: %d seeds, %d differences" % (total, bad))
+        for part in chk.parts():
+            cfg = part["configs"]["quick"][0]
+            exe = C.build_engine(part["engine"], cfg)
+            if part.get("jobs"):
+                jobs = list(itertools.islice(part["jobs"](chk, part, cfg), n))
+            else:
+                jobs = [chk.job_for(i, cfg, part) for i in range(n)]
+            table = []
+            for nw in (3, 14):
+                rs = run_parallel(exe, iter(jobs), nw)
+                table.append({repr(r.cmd): (r.status, result_class(r), r.kv.get("hash"), r.kv.get("ihash")) for r in rs})
+            diffs = [s for s in table[0] if table[0][s] != table[1].get(s)]
+            total += len(table[0])
+            bad += len(diffs)
+            C.log("selftest determinism %s/%s: %d jobs x 2 worker counts, %d differences" % (prop, part["engine"], len(table[0]), len(diffs)))
+            for s in diffs[:5]:
+                C.log("   ", s[:160], table[0][s], table[1].get(s))
+    C.log("selftest determinism: %d jobs, %d differences" % (total, bad))
     return 0 if bad == 0 else 2
